@@ -9,7 +9,7 @@ PROP = "C08"
 LEVEL = "exploration"
 RULE = ("seeded cases: 3-12 sources (multi-block and small files, links, FIFOs, sockets, directories) copied with -n into an "
         "existing directory pre-populated with entries of every kind (file, directory, FIFO, socket, link to an existing file, "
-        "dangling link) at the mapped path of a random subset of the sources (first / middle / last position) plus unrelated "
+        "dangling link, a hard link of the source entry itself) at the mapped path of a random subset of the sources (first / middle / last position) plus unrelated "
         "entries; both drivers; schedules free / pct / walker-first / workers-first so the walker's existence check races with "
         "active workers; combined with --backup {numbered, auto, auto with an existing backup}, --fsync, --no-perms, --no-timestamps, --ownership, --gitignore, --reflink, --no-progress. Oracle: (a) every pre-existing destination entry has the same kind, inode, bytes, mode, mtime, ctime "
         "(files), link text and device number afterwards; (b) if a source file, link or special node maps onto an existing entry "
@@ -100,9 +100,12 @@ def gen_cases(tier, seed):
             idxs = []
         colls = []
         for j in idxs[:max(1, ncoll)] if ncoll else []:
-            ek = r.choice(EXIST_KINDS)
+            ek = r.choice(EXIST_KINDS + (["hardlink-of-source", "hardlink-of-source"] if kinds[j] in ("f", "fbig", "fifo", "sock") else []))
             p = "dst/" + names[j]
-            if ek == "file":
+            if ek == "hardlink-of-source":
+                # the existing entry is another name of the very source entry (a hard-linked snapshot of the tree)
+                pre.append({"p": p, "k": "hard", "target": names[j]})
+            elif ek == "file":
                 pre.append({"p": p, "k": "f", "size": 77, "seed": 9, "segs": None, "mode": 0o640, "mtime_ns": 1_000_000_000_000_000_001})
             elif ek == "dir":
                 pre.append({"p": p, "k": "d"})
